@@ -23,7 +23,7 @@ Violations(line) ==
        Universal(o) \cup (IF BadConstruct(line.in) /\ o.constructed THEN {"invalid-document-accepted-at-construction"} ELSE {})
                     \cup (IF ~o.panic /\ (o.ok # e.ok \/ o.outcome # e.outcome \/ (o.outcome = "present" /\ o.outErr # e.outErr)) THEN {"unexpected-result"} ELSE {})
 
-Why(line) == IF Mode = "bytes" THEN line.in.target ELSE line.in.entry \o "/" \o line.in.construct \o "/" \o line.in.level
+Why(line) == IF Mode = "bytes" THEN line.in.target ELSE line.in.entry \o "/" \o line.in.construct \o "/" \o line.in.level \o (IF line.in.meta = "none" THEN "" ELSE "/metadata-" \o line.in.meta)
 Init == l = 1
 Next == /\ l <= Len(Trace)
         /\ LET v == Violations(Trace[l]) IN
